@@ -214,6 +214,24 @@ impl FeatureExtractor {
         .collect()
     }
 
+    #[cfg(vibrato_verif)]
+    pub fn verif_extract_unigram_feature_ids_opt<S>(
+        &mut self,
+        features: &[S],
+        category_id: u32,
+    ) -> Vec<Option<NonZeroU32>>
+    where
+        S: AsRef<str>,
+    {
+        Self::extract_feature_ids(
+            features,
+            &self.unigram_templates,
+            &mut self.unigram_feature_ids,
+            &mut self.unigram_next_id,
+            category_id,
+        )
+    }
+
     pub fn extract_left_feature_ids<S>(&mut self, features: &[S]) -> Vec<Option<NonZeroU32>>
     where
         S: AsRef<str>,
